@@ -40,7 +40,7 @@ ANCHORS = [
 ]
 REQUIRED_ANCHORS = ANCHORS
 FAULT_KINDS = ["unknown-atom", "unknown-bond", "self-bond", "unknown-centre", "two-centres", "non-element", "wrong-role-label", "delete-element", "lookup-absent"]
-REQUIRED = ["states_injected", "faults_injected"] + [f"fault:{k}" for k in FAULT_KINDS]
+REQUIRED = ["states_injected", "faults_injected", "derived_states"] + [f"fault:{k}" for k in FAULT_KINDS]
 CASE_TIMEOUT = 900
 
 
@@ -228,6 +228,13 @@ def gen_cases(ctx):
     n = ctx.n(1500, 30000)
     for i in range(n):
         yield {"kind": "random", "cls": CLASS_NAMES[(i + ctx.shard) % 4], "hseed": rng.randrange(1 << 30), "length": rng.choice([5, 10, 20, 40, 80])}
+    from .. import gen
+    from ..snapshot import pg_to_json
+
+    for i in range(ctx.n(800, 16000)):
+        cls = CLASS_NAMES[(i + ctx.shard) % 4]
+        pg = gen.random_pg(rng, cls, n_range=(1, 8), alphabet=gen.SMALL, p_stereo=0.6, p_change=0.4, attrs=True, p_none=0.1)
+        yield {"kind": "derived", "cls": cls, "pg": pg_to_json(pg), "bseed": rng.randrange(1 << 30)}
 
 
 def check_case(ctx, case):
@@ -243,6 +250,32 @@ def check_case(ctx, case):
         if "fault" in case:
             return _one_fault(ctx, g, M, cls, case)
         return inject(ctx, g, M, cls, case, random.Random(case.get("fseed", 0)), _state_from(cls, case["history"]))
+    if case["kind"] == "derived":
+        # states that come out of library derivations (subgraph, compose, relabel, removals, copies, JSON) instead of an edit history
+        from .. import gen
+        from ..snapshot import DerivationWrong, build_case, pg_from_json
+
+        pg = pg_from_json(case["pg"])
+
+        def make():
+            g_, _ = build_case(pg, case["bseed"])
+            M_ = sem.pg_empty(cls)
+            _resync(g_, M_)
+            return g_, M_
+
+        try:
+            g, M = make()
+        except DerivationWrong as e:
+            ctx.violate(f"C19/derived-input-differs/{cls}/{e.via}", f"deriving the state: {e}", case)
+            return
+        from ..snapshot import via_for
+
+        ctx.count("derived_states")
+        ctx.count(f"via:{via_for(case['bseed'])}")
+        if "fault" in case:
+            return _one_fault(ctx, g, M, cls, case)
+        inject(ctx, g, M, cls, case, random.Random(case["bseed"] + 1), make)
+        return
     if case["kind"] == "random":
         rng = random.Random(case["hseed"])
         ids = list(range(10))
